@@ -61,6 +61,10 @@ func reflectMap(v interface{}) (reflect.Value, bool) {
 	rt := rv.Type()
 	for rv.Kind() == reflect.Interface || rv.Kind() == reflect.Pointer {
 		rv = rv.Elem()
+		if isNil(rv) {
+			// a pointer to a nil pointer / map / interface: not a map environment
+			return rv, false
+		}
 		rt = rv.Type()
 	}
 	if rt.Kind() != reflect.Map || rt.Key().Kind() != reflect.String {
